@@ -9,7 +9,7 @@ use zeromq::{Endpoint, ZmqError};
 use zvcore::evidence::{Check, Tier};
 use zvcore::refcodec as rc;
 
-const OPS: [&str; 12] = ["bind-tcp4", "bind-tcp6", "bind-localhost", "bind-ipc", "bind-duplicate", "unbind-oldest", "unbind-unknown", "connect-in-each", "exchange-established", "rebind-last-unbound", "150-failed-handshakes-on-oldest", "MODE:back-to-back-on-current-thread-runtime"];
+const OPS: [&str; 13] = ["bind-tcp4", "bind-tcp6", "bind-localhost", "bind-ipc", "bind-duplicate", "unbind-oldest", "unbind-unknown", "connect-in-each", "exchange-established", "rebind-last-unbound", "150-failed-handshakes-on-oldest", "MODE:back-to-back-on-current-thread-runtime", "silent-client-stays-on-oldest"];
 /// Not an operation: as the first element of a sequence it selects the back-to-back mode - the calls follow each other
 /// with no suspension point of the application between them (on the current-thread runtime nothing a call spawned has
 /// been polled when the next call starts); the model is compared after the last call only.
@@ -70,6 +70,7 @@ async fn run_sequence(ty: Ty, seq: &[u8]) -> Vec<(String, String)> {
     let mut model: Vec<Endpoint> = Vec::new(); // in bind order
     let mut ever: Vec<Endpoint> = Vec::new();
     let mut clients: Vec<Client> = Vec::new();
+    let mut silents: Vec<RawStream> = Vec::new();
     let at_once = seq.first() == Some(&MODE_AT_ONCE);
     for (step, op) in seq.iter().enumerate() {
         let at = format!("{} — at step {} ({})", what, step, OPS[*op as usize]);
@@ -205,6 +206,27 @@ async fn run_sequence(ty: Ty, seq: &[u8]) -> Vec<(String, String)> {
                     }
                 }
             }
+            12 => {
+                // a client connects to the oldest bound endpoint, says nothing and stays: the endpoint goes on accepting
+                // everybody else (checked by the bookkeeping below and by the steps that follow)
+                if let Some(ep) = model.first().cloned() {
+                    match tokio::time::timeout(e4::HORIZON, RawStream::connect(&ep)).await {
+                        Ok(Ok(s)) => silents.push(s),
+                        _ => viol.push(("bound-endpoint/not-connectable".into(), format!("{}: raw connect to {} failed", at, ep))),
+                    }
+                    // the endpoint must serve a well-behaved client right behind the silent one
+                    match connect_in(ty, &ep.to_string()).await {
+                        Ok(s) => {
+                            let mut c = Client { s, via: ep.clone(), n: 0 };
+                            if let Err(e) = exchange(ty, &mut sock, &mut c, "behind-silent").await {
+                                viol.push(("bound-endpoint/exchange-failed".into(), format!("{}: exchange over a fresh connection to {} behind a silent client failed: {}", at, ep, e)));
+                            }
+                            clients.push(c);
+                        }
+                        Err(e) => viol.push(("bound-endpoint/not-connectable".into(), format!("{}: with one client sitting silent in its handshake, {} (still bound) does not serve the next client: {}", at, ep, e))),
+                    }
+                }
+            }
             9 => {
                 // an endpoint that was unbound is free again: binding its text form must succeed and give the same endpoint
                 if let Some(ep) = ever.iter().rev().find(|e| !model.contains(e)).cloned() {
@@ -268,6 +290,7 @@ async fn run_sequence(ty: Ty, seq: &[u8]) -> Vec<(String, String)> {
         }
     }
     let _ = sock.close().await;
+    drop(silents);
     viol
 }
 
@@ -363,7 +386,7 @@ fn sequences(max_len: usize, max_len_with_failures: usize) -> Vec<Vec<u8>> {
     for _ in 0..max_len {
         let mut next = Vec::new();
         for s in &level {
-            for op in 0..MODE_AT_ONCE {
+            for op in (0..MODE_AT_ONCE).chain([12u8]) {
                 // operations that need a bound endpoint / a client are no-ops on an empty history: skip the duplicates
                 let binds = s.iter().filter(|o| **o <= 3).count();
                 if (op == 4 || op == 5 || op == 7) && binds == 0 {
@@ -377,6 +400,9 @@ fn sequences(max_len: usize, max_len_with_failures: usize) -> Vec<Vec<u8>> {
                 }
                 // the expensive operation: at most once, in the shorter sequences, and only with something bound
                 if op == 10 && (binds == 0 || s.contains(&10)) {
+                    continue;
+                }
+                if op == 12 && (binds == 0 || s.contains(&12)) {
                     continue;
                 }
                 if s.len() + 1 > max_len_with_failures && (op == 10 || s.contains(&10)) {
@@ -574,7 +600,7 @@ pub fn run(tier: Tier, replay: Option<String>) -> i32 {
     ck.cov("sequences_by_length", json!(lens.iter().map(|(k, v)| (k.to_string(), *v)).collect::<std::collections::BTreeMap<_, _>>()));
     ck.cov("isolated_network_namespaces", isolated);
     ck.cov("exhaustive", skipped == 0);
-    ck.cov("rule", format!("every sequence of length <= {} over the 11 operations {:?} (operations that need a bound endpoint or an established client are omitted where they would be no-ops; the last operation - 150 clients that close in mid-handshake one after the other, then a well-behaved one - at most once and in sequences of length <= {}) on a real REP and a real PULL socket on the real tokio runtime (multi-thread), plus every sequence of length <= {} over the bind/unbind operations alone in back-to-back mode on the current-thread runtime (no suspension point of the application between the calls, nothing a call spawned has been polled when the next call starts; model compared after the last call): {} sequences; distinct by construction; non-trivial = contains at least one bind. After EVERY operation: return value as the reference model says (wildcard port resolved non-zero, duplicate bind fails and changes nothing, unbind of anything not bound - an endpoint bound earlier, a far miss, and near misses of every bound endpoint (same port under another host name or address, same ipc path with a suffix) - fails with NoSuchBind and changes nothing), binds() equals the model's set, every bound endpoint accepts a fresh connection by its text form and completes a message exchange, every endpoint not bound (any more) refuses at once, connections established earlier keep working across later unbinds. Additionally, in a child process with a lowered descriptor limit: REP and PULL with two bound endpoints, accept() on one of them failing once for lack of descriptors - the endpoint stays in binds(), accepts a fresh connection afterwards and exchanges a message, the other endpoint is unaffected. Each worker process runs in its own network namespace so that no other process can take a port this check expects to be free.", tier.pick(4, 5), &OPS[..11], tier.pick(3, 4), tier.pick(3, 4), cases.len()));
+    ck.cov("rule", format!("every sequence of length <= {} over the 11 operations {:?} and a twelfth, \"silent-client-stays-on-oldest\" (a raw client connects, says nothing and stays; a well-behaved one right behind it must be served; at most once per sequence) (operations that need a bound endpoint or an established client are omitted where they would be no-ops; the last operation - 150 clients that close in mid-handshake one after the other, then a well-behaved one - at most once and in sequences of length <= {}) on a real REP and a real PULL socket on the real tokio runtime (multi-thread), plus every sequence of length <= {} over the bind/unbind operations alone in back-to-back mode on the current-thread runtime (no suspension point of the application between the calls, nothing a call spawned has been polled when the next call starts; model compared after the last call): {} sequences; distinct by construction; non-trivial = contains at least one bind. After EVERY operation: return value as the reference model says (wildcard port resolved non-zero, duplicate bind fails and changes nothing, unbind of anything not bound - an endpoint bound earlier, a far miss, and near misses of every bound endpoint (same port under another host name or address, same ipc path with a suffix) - fails with NoSuchBind and changes nothing), binds() equals the model's set, every bound endpoint accepts a fresh connection by its text form and completes a message exchange, every endpoint not bound (any more) refuses at once, connections established earlier keep working across later unbinds. Additionally, in a child process with a lowered descriptor limit: REP and PULL with two bound endpoints, accept() on one of them failing once for lack of descriptors - the endpoint stays in binds(), accepts a fresh connection afterwards and exchanges a message, the other endpoint is unaffected. Each worker process runs in its own network namespace so that no other process can take a port this check expects to be free.", tier.pick(4, 5), &OPS[..11], tier.pick(3, 4), tier.pick(3, 4), cases.len()));
     ck.sample(json!({"type":"REP","ops":["bind-tcp4","connect-in-each","unbind-oldest","exchange-established"]}));
     ck.assume("OS schedules are not enumerated; conditions the statement ties to a return are tested immediately after the return");
     ck.conclude()
